@@ -142,6 +142,10 @@ class MachO(BinFormat):
         f.seek(0)
         while lcsize < self.header.sizeofcmds:
             cmd = struct_load_command(f, offset)
+            if cmd.cmdsize < len(cmd):
+                # a load command is at least as large as its own header:
+                # a smaller (or null) size would make this loop endless.
+                raise MachOError("bad load command size:\n%s" % cmd)
             data = f[offset : offset + cmd.cmdsize]
             offset += cmd.cmdsize
             lcsize += cmd.cmdsize
